@@ -562,6 +562,42 @@ Plan genHostile(const std::string& prop, int tier, uint64_t batchSeed, uint64_t 
         }
         g.cfg().set("crowd5000", 1);
     }
+    if (!c17 && r.chance(1, 15))
+    {
+        // a few hundred endpoints with random ids, each with a two-segment message: all first segments, then - in random
+        // order - either the last segment (must complete) or an unsegmented message (releases the entry). Open-addressing
+        // tables, inline slots and wrap-arounds of whatever holds the pending messages get filled, punctured and refilled.
+        const size_t nEp = 100 + r.below(220);
+        std::set<std::pair<int, int>> ids;
+        while (ids.size() < nEp)
+            ids.insert({static_cast<int>(r.below(65536)), static_cast<int>(r.below(256))});
+        std::vector<std::pair<int, int>> ce(ids.begin(), ids.end());
+        std::vector<int64_t> c0(nEp);
+        for (size_t k = 0; k < nEp; ++k)
+        {
+            c0[k] = static_cast<int64_t>(r.below(65536));
+            Item& op = g.addOp(OP_RAW, noiseNode, 1);
+            op.set("dev", ce[k].first).set("stream", ce[k].second).set("ver", 1).set("mtype", 1).set("lat", 1).set("ctr", c0[k]);
+            Item m("m");
+            m.set("kind", 0).set("ptype", 0x20).set("len", r.range(1, 12)).set("id", g.msgId()).set("seg", 1);
+            op.sub.push_back(std::move(m));
+        }
+        std::vector<size_t> order(nEp);
+        for (size_t k = 0; k < nEp; ++k)
+            order[k] = k;
+        for (size_t i = nEp; i > 1; --i)
+            std::swap(order[i - 1], order[r.below(i)]);
+        for (size_t k : order)
+        {
+            const bool finish = r.chance(2, 3);
+            Item& op = g.addOp(OP_RAW, noiseNode, 1);
+            op.set("dev", ce[k].first).set("stream", ce[k].second).set("ver", 1).set("mtype", 1).set("lat", 1).set("ctr", (c0[k] + 1) & 0xFFFF);
+            Item m("m");
+            m.set("kind", 0).set("ptype", 0x20).set("len", r.range(1, 12)).set("id", g.msgId()).set("seg", finish ? 3 : 0);
+            op.sub.push_back(std::move(m));
+        }
+        g.cfg().set("crowd300", 1);
+    }
     const bool flood = !c02 && !manyEndpoints && nNodes >= 2 && r.chance(1, tier ? 25 : 60);
     if (flood)
     {
